@@ -586,3 +586,12 @@ Definition erase_result (r : result) : result :=
 Definition erase (g : gstate) : gstate :=
   mkG (g_meta g) (st_set_pots (g_st g) (map erase_pot (st_pots (g_st g)))) (g_players g)
       (option_map erase_result (g_result g)).
+
+(* ---------- ShuffleCards (deck.go): rand.Shuffle is a sequence of swaps cards[i], cards[j] ---------- *)
+Definition swap_at {A} (l : list A) (i j : nat) : list A :=
+  match nth_error l i, nth_error l j with
+  | Some x, Some y => update_nth j (fun _ => x) (update_nth i (fun _ => y) l)
+  | _, _ => l
+  end.
+Definition apply_swaps {A} (swaps : list (nat * nat)) (l : list A) : list A :=
+  fold_left (fun l ij => swap_at l (fst ij) (snd ij)) swaps l.
